@@ -17,6 +17,14 @@
 //                                             checked HERE against the specification predicate of partition_correct /
 //                                             check_select by O(m^2 + m log n) probing (" !SPEC:<why>" on failure); the
 //                                             check script compares it with its own evaluation of the specification.
+//   sel <cmp> <rank> <seq>|<seq>|...          multisequence_selection ONLY (every variant): cases in which only the
+//                                             selection is defined - no data (no sequence "-", or all sequences empty,
+//                                             written as nothing between the bars) and ranks outside [0, N) (negative,
+//                                             >= N): it must throw.  Output "S<cmp> <seqs> => <rank>:throw".
+//   narrow <cmp> <uchar|short> <rank> <seqs>  as `one`, but RankType unsigned char / short (narrower than the total);
+//   virtn <cmp> <rank> <rle>|...              as `virt`, RankType int (defect fixed in b429853: N was kept in RankType).
+// "-" stands for the empty tuple (m = 0).  For std::less on int elements every rank is also run through the DEFAULT
+// comparator argument of both templates.
 // Call modes a caller may use on HEAD are exercised on every rank: the same object passed as `rank` and `offset` of
 // multisequence_selection, and (pointer variants) offsets written in place into the `first` members of the pairs; a
 // deviating result replaces the answer and adds a token "#alias=...".
@@ -48,6 +56,7 @@
 #include <iterator>
 #include <sstream>
 #include <string>
+#include <type_traits>
 #include <utility>
 #include <vector>
 
@@ -62,6 +71,7 @@ struct QLess {
     bool operator()(int a, int b) const { return a / 4 < b / 4; }
 };
 
+inline bool g_sel_only = false;   // `sel` lines: call multisequence_selection only
 static bool g_self = false;
 static long g_self_fail = 0;
 
@@ -127,6 +137,7 @@ struct Answer {
     int v = 0;
     long soff = -1;
     std::string note;   // "#alias=..." when an aliasing call mode deviates
+    bool sel_only = false;
     bool operator==(const Answer& o) const {
         return offs == o.offs && thrown == o.thrown && (thrown || (v == o.v && soff == o.soff));
     }
@@ -182,10 +193,23 @@ static Answer run_one(std::vector<std::pair<It, It>> iters, long rank, Comp comp
         else if constexpr (RK == 1) return tlx::multisequence_selection<Elem>(iters.data(), iters.data() + m, r_in, off_out, comp);
         else return tlx::multisequence_selection<Elem>(iters.cbegin(), iters.cend(), r_in, off_out, comp);
     };
-    if constexpr (RK == 0) tlx::multisequence_partition(iters.begin(), iters.end(), rk, offs.begin(), comp);
-    else if constexpr (RK == 1) tlx::multisequence_partition(iters.data(), iters.data() + m, rk, offs.data(), comp);
-    else tlx::multisequence_partition(iters.cbegin(), iters.cend(), rk, offs.begin(), comp);
+    a.sel_only = g_sel_only;
+    for (size_t i = 0; i < m; ++i) offs[i] = iters[i].first;
+    if (!g_sel_only) {
+        if constexpr (RK == 0) tlx::multisequence_partition(iters.begin(), iters.end(), rk, offs.begin(), comp);
+        else if constexpr (RK == 1) tlx::multisequence_partition(iters.data(), iters.data() + m, rk, offs.data(), comp);
+        else tlx::multisequence_partition(iters.cbegin(), iters.cend(), rk, offs.begin(), comp);
+    }
     try { v = select(rk, soff); } catch (std::exception&) { a.thrown = true; }
+    // call mode: the default comparator argument (Comparator = std::less<value_type>) of both templates
+    if constexpr (std::is_same<Comp, std::less<Elem>>::value && RK == 0) {
+        std::vector<It> offs2(offs);
+        if (!g_sel_only) tlx::multisequence_partition(iters.begin(), iters.end(), rk, offs2.begin());
+        RankT soff2 = static_cast<RankT>(-1); Elem v2 = Elem(); bool thrown2 = false;
+        try { v2 = tlx::multisequence_selection<Elem>(iters.begin(), iters.end(), rk, soff2); } catch (std::exception&) { thrown2 = true; }
+        bool same = (offs2 == offs) && thrown2 == a.thrown && (thrown2 || (key_of(v2) == key_of(v) && soff2 == soff));
+        if (!same) { offs = offs2; a.thrown = thrown2; v = v2; soff = soff2; a.note += " #mode=default-comparator"; }
+    }
     // call mode: one object is both `rank` (const RankType&) and `offset` (RankType&)
     {
         RankT pos = rk; Elem v2 = Elem(); bool thrown2 = false;
@@ -195,7 +219,7 @@ static Answer run_one(std::vector<std::pair<It, It>> iters, long rank, Comp comp
         }
     }
     // call mode: the offsets overwrite the `first` members of the pairs
-    if constexpr (RK == 1) {
+    if constexpr (RK == 1) if (!g_sel_only) {
         std::vector<std::pair<It, It>> inplace(iters);
         tlx::multisequence_partition(inplace.data(), inplace.data() + m, rk, FirstRef<It>{inplace.data()}, comp);
         bool same = true;
@@ -328,6 +352,7 @@ Answer run_virtual_b(int k, std::vector<VSeq>& vs, long rank);   // k = 2: less/
 #if !defined(C08_PART) || C08_PART == 2
 Answer run_virtual_a(int k, std::vector<VSeq>& vs, long rank) {
     if (k == 0) return run_virtual_as<long>(vs, rank, std::less<int>());
+    if (k == 4) return run_virtual_as<int>(vs, rank, std::less<int>());   // `virtn`: RankType narrower than the total
     return run_virtual_as<unsigned long>(vs, rank, std::less<int>());
 }
 #endif
@@ -335,6 +360,15 @@ Answer run_virtual_a(int k, std::vector<VSeq>& vs, long rank) {
 Answer run_virtual_b(int k, std::vector<VSeq>& vs, long rank) {
     if (k == 2) return run_virtual_as<long long>(vs, rank, std::less<int>());
     return run_virtual_as<long>(vs, rank, std::greater<int>());
+}
+#endif
+
+// RankType narrower than the total (docs/audit/C08.md, fixed in b429853): part 1
+Answer run_narrow(int k, Tuple& T, long rank);   // k = 0: unsigned char, 1: short; std::less<int>, vector iterators
+#if !defined(C08_PART) || C08_PART == 1
+Answer run_narrow(int k, Tuple& T, long rank) {
+    if (k == 0) return run_one<unsigned char, 0, std::less<int>>(iter_pairs(T.vi), rank, std::less<int>());
+    return run_one<short, 0, std::less<int>>(iter_pairs(T.vi), rank, std::less<int>());
 }
 #endif
 
@@ -355,6 +389,11 @@ static void show_answer(long rank, const Answer& a, std::string& out) {
     char buf[64];
     snprintf(buf, sizeof buf, " %ld:", rank);
     out += buf;
+    if (a.sel_only) {
+        if (a.thrown) out += "throw";
+        else { snprintf(buf, sizeof buf, "%d:%ld", a.v, a.soff); out += buf; }
+        return;
+    }
     for (size_t i = 0; i < a.offs.size(); ++i) {
         snprintf(buf, sizeof buf, "%s%ld", i ? "," : "", a.offs[i]);
         out += buf;
@@ -410,6 +449,7 @@ static Seq parse_seq(const std::string& s) {
 
 static std::vector<Seq> parse_seqs(const std::string& s) {
     std::vector<Seq> r; size_t p = 0;
+    if (s == "-") return r;   // no sequence at all
     while (p <= s.size()) {
         size_t q = s.find('|', p); if (q == std::string::npos) q = s.size();
         r.push_back(parse_seq(s.substr(p, q - p)));
@@ -420,6 +460,7 @@ static std::vector<Seq> parse_seqs(const std::string& s) {
 
 static std::string show_seqs(const std::vector<Seq>& seqs) {
     std::string o; char buf[32];
+    if (seqs.empty()) return "-";
     for (size_t i = 0; i < seqs.size(); ++i) {
         if (i) o += "|";
         for (size_t k = 0; k < seqs[i].size(); ++k) { snprintf(buf, sizeof buf, "%s%d", k ? "," : "", seqs[i][k]); o += buf; }
@@ -497,7 +538,7 @@ static std::string virt_spec(std::vector<VSeq>& vs, long rank, const Answer& a, 
     return "";
 }
 
-static void run_virt(const std::string& c, long rank, const std::string& desc) {
+static void run_virt(const std::string& c, long rank, const std::string& desc, bool narrow_int = false) {
     std::vector<VSeq> vs;
     size_t p = 0;
     while (p <= desc.size()) {
@@ -518,9 +559,9 @@ static void run_virt(const std::string& c, long rank, const std::string& desc) {
     std::string out = "V" + c + " " + desc + " =>", tags;
     g_virt_oob = 0;
     bool greater = (c == "G");
-    Answer a = greater ? run_virtual_b(3, vs, rank) : run_virtual_a(0, vs, rank);
+    Answer a = narrow_int ? run_virtual_a(4, vs, rank) : greater ? run_virtual_b(3, vs, rank) : run_virtual_a(0, vs, rank);
     show_answer(rank, a, out);
-    if (!greater) {
+    if (!greater && !narrow_int) {
         static const char* const nm[3] = {"", "unsigned-long", "long-long"};
         for (int k = 1; k <= 2; ++k) {
             Answer b = k == 1 ? run_virtual_a(1, vs, rank) : run_virtual_b(2, vs, rank);
@@ -531,6 +572,27 @@ static void run_virt(const std::string& c, long rank, const std::string& desc) {
     if (!why.empty()) { out += " !SPEC:"; out += why; }
     if (g_virt_oob) out += " !OUT-OF-RANGE-READ";
     out += tags;
+    puts(out.c_str());
+}
+
+static void run_sel(const std::string& c, long rank, std::vector<Seq>& seqs) {
+    g_sel_only = true;
+    std::string out = "S" + c + " " + show_seqs(seqs) + " =>", tags;
+    Tuple T(seqs);
+    if (c == "L") run_rank(seqs, T, rank, out, tags, true, std::less<int>());
+    else if (c == "G") run_rank(seqs, T, rank, out, tags, true, std::greater<int>());
+    else run_rank(seqs, T, rank, out, tags, true, QLess());
+    g_sel_only = false;
+    out += tags;
+    puts(out.c_str());
+}
+
+static void run_narrow_line(const std::string& type, long rank, std::vector<Seq>& seqs) {
+    std::string out = "L " + show_seqs(seqs) + " =>";
+    Tuple T(seqs);
+    Answer a = run_narrow(type == "uchar" ? 0 : 1, T, rank);
+    show_answer(rank, a, out);
+    out += a.note;
     puts(out.c_str());
 }
 
@@ -576,9 +638,17 @@ int main(int argc, char** argv) {
         } else if (kind == "pad") {
             long long x; ls >> x;
             run_pad(x);
-        } else if (kind == "virt") {
+        } else if (kind == "virt" || kind == "virtn") {
             long rank; std::string s; ls >> c >> rank >> s;
-            run_virt(c, rank, s);
+            run_virt(c, rank, s, kind == "virtn");
+        } else if (kind == "sel") {
+            long rank; std::string s; ls >> c >> rank >> s;
+            std::vector<Seq> seqs = parse_seqs(s);
+            run_sel(c, rank, seqs);
+        } else if (kind == "narrow") {
+            long rank; std::string t, s; ls >> c >> t >> rank >> s;
+            std::vector<Seq> seqs = parse_seqs(s);
+            run_narrow_line(t, rank, seqs);
         } else {
             puts("?");
         }
